@@ -228,6 +228,7 @@ var abstractTypes = map[string]string{
 	"crypto/x509.CertPool":   "CertPool",
 	"math/big.Int":           "BigInt",
 	"crypto/x509/pkix.Name":  "PkixName",
+	"golang.org/x/crypto/cryptobyte.Builder": "CbBuilder",
 }
 
 func abstractSort(t types.Type) (smt.Sort, bool) {
